@@ -286,11 +286,53 @@ def check_total(sel, xs, ys, p0, rec=None):
                  sample=lambda: {"selector": text, "xs": xs, "ys": ys, "p0": p0, "records": expected[:3]})
 
 
+def check_dup(sel, xs, ys, p0, rec=None):
+    """`lo(<v> as d ~cond) > li(<v'> as d, !q)`: the same capture name at two call levels, the
+    condition standing on the OUTER call's variable.  The model selector keeps the two apart
+    (aliases D0 / D1); the condition must be decided by the outer variable's value.  What the
+    event reports under the shared name is not compared."""
+    from ptera import probing
+
+    env = _env()
+    text = G.canonical(sel).replace("D0", "d").replace("D1", "d")
+    sel0 = strip_values(sel)
+    tr, (r1, r2) = ref_run(sel0, sel, xs, ys, p0)
+    cand = [ev for g in M.immediate_events(sel0, tr) for ev in g]
+    stats = {}
+    expected = [{k: v for k, v in ev.items() if k not in ("D0", "D1")} for ev in cand if satisfies(sel, ev, stats)]
+    try:
+        with probing(text, env=env).values() as got:
+            FL.lo(list(xs), list(ys))
+            FL.li(p0, list(ys))
+    except BaseException as e:
+        _cleanup()
+        raise PropertyViolation("run", f"probing({text!r}) raised {HY.describe_exc(e)}",
+                                extra={"bucket": "run:" + HY.exc_bucket(e)})
+    finally:
+        _cleanup()
+    got = [{k: v for k, v in ev.items() if k != "d"} for ev in got]
+    if got != expected:
+        raise PropertyViolation(
+            "filter",
+            f"probing({text!r}) on xs={xs} ys={ys} p0={p0} (the condition is on lo's variable): expected "
+            f"{expected!r}, got {got!r}",
+        )
+    if rec is not None:
+        passes, rejects = len(expected), len(cand) - len(expected)
+        feats = {"same-name-two-levels"} | ({"passes"} if passes else set()) | ({"rejects"} if rejects else set())
+        differ = any(ev.get("D0") != ev.get("D1") for ev in cand)
+        rec.case(h64(repr((sel, xs, ys, p0, "dup"))), passes > 0 and rejects > 0 and differ, feats,
+                 sample=lambda: {"selector": text, "xs": xs, "ys": ys, "p0": p0, "delivered": expected[:5],
+                                 "candidates": len(cand)})
+
+
 def check_e2e(sel, xs, ys, p0, ov_kind, rec=None):
     from ptera import probing
 
     if ov_kind == "total":
         return check_total(sel, xs, ys, p0, rec)
+    if ov_kind == "dup":
+        return check_dup(sel, xs, ys, p0, rec)
     env = _env()
     text = G.canonical(sel)
     sel0 = strip_values(sel)
@@ -490,9 +532,17 @@ def e2e_strategy():
             caps.append(G.Cap(fv, None, None, ("call", "throttle", (("sym", str(k)),)), "~", 1))
         return G.CallN("li", None, tuple(caps), ())
 
+    @st.composite
+    def dup_sel(draw):
+        vop, val = draw(constraint())
+        outer = G.Cap(draw(st.sampled_from(["m", "acc", "x"])), "D0", None, val, vop, 0)
+        inner = G.Cap(draw(st.sampled_from(["tot", "y", "p"])), "D1", None, None, "=", 0)
+        return G.CallN("lo", None, (outer,), (G.CallN("li", None, (inner, G.Cap("q", None, None, None, "=", 1)), ()),))
+
     ints = st.lists(small, min_size=0, max_size=5)
     sorted_ints = ints.map(sorted)
     return st.one_of(
+        st.tuples(dup_sel(), ints, ints, small, st.just("dup")),
         st.tuples(sel(), ints, ints, small, st.sampled_from([None, "const", "fn"])),
         st.tuples(sel(), ints, ints, small, st.sampled_from([None, "const", "fn", "total"])),
         st.tuples(throttle_sel(), sorted_ints, sorted_ints, small, st.none()),
